@@ -42,6 +42,12 @@ def make_case(ctx, i):
     eg = EG.ExecGen(defs, r)
     doc = eg.document(1 + r.below(3))
     frs = [x for x in doc["defs"] if x["k"] == "frag"]
+    # non-ASCII text inside the documents (a string argument of the repeatable @mark directive on a field of every fragment and of the
+    # operation): in standalone mode the runtime document is printed on the same generated line as mapped identifiers
+    for x in doc["defs"]:
+        fld = next((sel for sel in x["sel"] if sel["k"] == "field"), None)
+        if fld is not None and r.chance(2, 3):
+            fld["dirs"] = fld["dirs"] + [G.directive("mark", [G.arg("s", G.v_str(r.choice(["\u65e5\u672c\u8a9e \U0001F389", "caf\u00e9 \u00fc", "plain"])))])]
     op_files = [{"path": ["ops", "q.graphql"], "doc": doc}]
     imported = []
     if frs and r.chance(2, 3):
